@@ -397,6 +397,12 @@ def step (line : String) : String :=
         pure (outcomeStr (fun _ => "") (Roman.valid ml (r % 2 == 1) s))).getD bad
   -- ------------------------------------------------------------------ sem
   | ["sem.parse", entry, maxlen, h] =>
+    -- `Default:<n>`: DefaultParser under the rule value n (a flag set, read as a bit pattern): the tag form is
+    -- allowed iff the RuleDisableTag bit (bit 0) is clear, whatever other bits are set
+    if entry.startsWith "Default:" then
+      (do let r ← bitsField (entry.drop 8).toString; let ml ← maxlen.toNat?; let s ← unhex h
+          pure (outcomeStr verStr (Sem.unmarshalText ml true (r % 2 == 0) s))).getD bad
+    else
     (do let e ← semEntry entry; let ml ← maxlen.toNat?; let s ← unhex h
         pure (outcomeStr verStr (Sem.parseEntry ml e s))).getD bad
   | ["sem.format", ma, mi, pa, pre, build, tag, prefix_] =>
